@@ -4,7 +4,7 @@
 //! `?` operator and `if` expressions (treated as statement-like blocks in the current checker).
 
 use crate::frontend::ast::*;
-use crate::frontend::diagnostics::errors;
+use crate::frontend::diagnostics::{CompileError, errors};
 use crate::frontend::symbols::{ResolvedType, ScopeKind};
 
 use super::TypeChecker;
@@ -38,6 +38,18 @@ impl TypeChecker {
         if !inner_ty.is_result() {
             self.errors.push(errors::try_on_non_result(&inner_ty.to_string(), span));
             return ResolvedType::Unknown;
+        }
+
+        if self.current_return_error_type.is_none() {
+            // `?` returns the error to the caller, so the enclosing function must be able to return one.
+            self.errors.push(
+                CompileError::type_error(
+                    "The '?' operator can only be used in a function that returns Result[...]".to_string(),
+                    span,
+                )
+                .with_hint("Change the return type to Result[T, E], or handle the error with `match`"),
+            );
+            return inner_ty.result_ok_type().cloned().unwrap_or(ResolvedType::Unknown);
         }
 
         if let (Some(inner_err), Some(expected_err)) = (inner_ty.result_err_type(), &self.current_return_error_type) {
